@@ -116,7 +116,20 @@ func (t *Transport) DialStream(ctx context.Context) (net.Conn, error) {
 func (t *Transport) FrameSize() int { return 4296 }
 
 // PeerKey implements rhp.TransportClient.
-func (t *Transport) PeerKey() types.PublicKey { return t.hostKey }
+func (t *Transport) PeerKey() types.PublicKey {
+	t.mu.Lock()
+	defer t.mu.Unlock()
+	return t.hostKey
+}
+
+// SetPeerKey changes the identity the transport reports for its peer: the
+// renter then talks to a peer whose transport key is NOT the host key of the
+// contracts it uses (a contract of host A used over a connection to peer B).
+func (t *Transport) SetPeerKey(k types.PublicKey) {
+	t.mu.Lock()
+	t.hostKey = k
+	t.mu.Unlock()
+}
 
 // Close closes the transport (both sides).
 func (t *Transport) Close() error {
